@@ -78,9 +78,62 @@ pub fn test_case(case: &Case) -> Result<CaseInfo, Fail> {
     })
 }
 
+/// One garbled row: the values are coins of the engine (labels, MAC values), the number of MACs is
+/// public.  u128 values travel as strings (JSON numbers do not hold them).
+#[derive(Clone, Debug, Serialize, Deserialize)]
+pub struct RowCase {
+    pub row_values: Vec<String>,
+    pub bit: bool,
+    pub w: usize,
+    pub row: u8,
+}
+
+/// magnitude classes that a variable-length integer encoding would distinguish
+fn gen_u128_class() -> impl Strategy<Value = u128> {
+    prop_oneof![
+        Just(0u128),
+        (0u128..251),
+        (251u128..1 << 16),
+        (1u128 << 16..1u128 << 32),
+        (1u128 << 32..1u128 << 64),
+        (1u128 << 64..=u128::MAX),
+        any::<u128>(),
+        Just(u128::MAX),
+    ]
+}
+
+fn gen_row() -> impl Strategy<Value = RowCase> {
+    // label_x, label_y, label, then 1..5 MACs (one per party)
+    (proptest::collection::vec(gen_u128_class(), 4..=8), any::<bool>(), 0usize..5000, 0u8..4)
+        .prop_map(|(v, bit, w, row)| RowCase { row_values: v.iter().map(|x| x.to_string()).collect(), bit, w, row })
+}
+
+/// The length of an encrypted row is a function of the number of MACs only, and the row decrypts
+/// to what was encrypted.  Reference length: the same shape with all-ones values.
+pub fn test_row(c: &RowCase) -> Result<CaseInfo, Fail> {
+    let v: Vec<u128> = c.row_values.iter().map(|x| x.parse().unwrap_or(0)).collect();
+    let (lx, ly, label, macs) = (v[0], v[1], v[2], &v[3..]);
+    let got = polytune::verif::garble_row_roundtrip(lx, ly, c.w, c.row, c.bit, macs, label).map_err(|e| Fail::new("C09|row-roundtrip", format!("row does not round-trip: {e}")))?;
+    let ones = vec![u128::MAX; macs.len()];
+    let reference = polytune::verif::garble_row_roundtrip(u128::MAX, u128::MAX, c.w, c.row, true, &ones, u128::MAX).map_err(|e| Fail::new("C09|row-roundtrip", format!("reference row does not round-trip: {e}")))?;
+    if (got.1, &got.2, got.3) != (c.bit, &macs.to_vec(), label) {
+        return Err(Fail::new("C09|row-roundtrip", format!("row decrypts to a different triple: {:?}", got)));
+    }
+    if got.0 != reference.0 {
+        return Err(Fail::new("C09|row-length-differs", format!("garbled row with {} MACs is {} bytes for the values {:?} and {} bytes for all-ones values", macs.len(), got.0, c.row_values, reference.0)));
+    }
+    let small = v.iter().filter(|x| **x < 1u128 << 64).count();
+    Ok(CaseInfo {
+        nontrivial: (small > 0).then(|| hash_of(&serde_json::to_string(c).unwrap())),
+        classes: vec![format!("row_macs={}", macs.len()), if small > 0 { "row_small_value".into() } else { "row_large_values".into() }],
+        sample: Some(json!({"row_macs": macs.len(), "bytes": got.0, "values_below_2^64": small})),
+        ..Default::default()
+    })
+}
+
 pub fn run(tier: Tier, seed: u64) -> i32 {
     let ctx = Ctx::new("C09", tier, seed, "exploration");
-    ctx.set_rule("proptest: public configuration (circuit, n in 2..4, p_eval, p_out; size classes: small, wide, 100..700 AND gates with every residue modulo 32, thousands of registers, > 1000 AND gates) x K=3..4 executions with independently generated inputs, engine coins, schedules, link capacities and tmp_dir choices; oracle: for every ordered pair the sequence of (label, byte length) of the messages sent is identical in all K executions (metamorphic relation, no decoding); non-trivial = >=1 AND gate and inputs differing between the executions; distinct by hash of the case; evaluations counts engine executions");
+    ctx.set_rule("proptest: public configuration (circuit, n in 2..4, p_eval, p_out; size classes: small, wide, 100..700 AND gates with every residue modulo 32, thousands of registers, > 1000 AND gates) x K=3..4 executions with independently generated inputs, engine coins, schedules, link capacities and tmp_dir choices; oracle: for every ordered pair the sequence of (label, byte length) of the messages sent is identical in all K executions (metamorphic relation, no decoding); non-trivial = >=1 AND gate and inputs differing between the executions; distinct by hash of the case; evaluations counts engine executions; plus (unit level, hook garble_row_roundtrip) garbled rows with 1..5 MACs whose labels / MAC values are drawn from the magnitude classes {0, <251, <2^16, <2^32, <2^64, >=2^64, all-ones} (coins that a run samples with probability 2^-64): the ciphertext length equals that of the all-ones row of the same shape and the row decrypts to the triple that was encrypted");
     ctx.assume("per ordered pair the order of sends is the sender's program order (monitor m1: one send outstanding per peer)");
     let cp = CircParams { n_min: 2, n_max: 4, max_gates: 30, ..Default::default() };
     prop_search(&ctx, "c09", tier.pick(96, 4000), || gen_c09(cp.clone(), 4), test_case);
@@ -107,9 +160,17 @@ pub fn run(tier: Tier, seed: u64) -> i32 {
         let big = CircParams { n_min: 2, n_max: 3, max_gates: 8, bulk: vec![1001, 2500], bulk_prob: 255, ..Default::default() };
         prop_search(&ctx, "c09big", tier.pick(4, 40), || gen_c09(big.clone(), 3), test_case);
     }
+    if !ctx.stopped() {
+        // fixed-size rows: message lengths must not depend on the magnitude of the coins either
+        prop_search(&ctx, "c09row", tier.pick(4000, 200_000), gen_row, test_row);
+    }
     ctx.finish()
 }
 
 pub fn replay(path: &str) -> i32 {
+    let text = std::fs::read_to_string(path).unwrap_or_default();
+    if text.contains("\"row_values\"") {
+        return crate::fw::replay_case::<RowCase, _>("C09", path, 1, test_row);
+    }
     crate::fw::replay_case::<Case, _>("C09", path, 3, test_case)
 }
